@@ -115,6 +115,6 @@ def witnessStore : Store := [(⟨.burn .code, "s1"⟩, ⟨"clientA", 60⟩)]
 def witnessSched : List Ev := [.step 0, .step 1, .step 0, .step 1, .step 0, .step 1, .step 0, .step 1]
 /-- launch both, get₁ get₂ put₁ put₂ -/
 def witnessMarkSched : List Ev := [.step 0, .step 1, .step 0, .step 1, .step 0, .step 1]
-def witnessMarkReqs (m : MarkKind) : List Req := [.mark ⟨m, "n1"⟩, .mark ⟨m, "n1"⟩]
+def witnessMarkReqs (m : MarkKind) : List Req := [.mark { kind := m, id := "n1" }, .mark { kind := m, id := "n1" }]
 
 end Nuts.C05
